@@ -39,6 +39,8 @@ type Prog struct {
 	reachCache      map[*ssa.Function]map[*ssa.Function]bool
 	callersOf       map[*ssa.Function][]ssa.CallInstruction
 	pathClassMemo   map[ssa.Value]string
+	roleNames       map[*types.Var]string
+	rolesResolved   bool
 	fieldOwnerCache map[*types.Var]string
 }
 
@@ -226,6 +228,75 @@ func (p *Prog) Field(rel, typ, field string) *types.Var {
 			return st.Field(i)
 		}
 	}
+	if rel == "" && typ == "DB" {
+		return p.dbChanByRole(st, field)
+	}
+	return nil
+}
+
+// dbChanByRole: the channels of DB found by what they do when a refactoring renamed them - flushC carries memtables;
+// closeC is the chan struct{} an exported method (Close) sends on or closes; closed is the chan struct{} an unexported function
+// (the flusher) closes.
+func (p *Prog) dbChanByRole(st *types.Struct, field string) *types.Var {
+	var cands []*types.Var
+	for i := 0; i < st.NumFields(); i++ {
+		f := st.Field(i)
+		ch, ok := f.Type().Underlying().(*types.Chan)
+		if !ok {
+			continue
+		}
+		_, isStruct := ch.Elem().Underlying().(*types.Struct)
+		_, isPtr := ch.Elem().Underlying().(*types.Pointer)
+		switch field {
+		case "flushC":
+			if isPtr {
+				cands = append(cands, f)
+			}
+		case "closeC", "closed":
+			if !isStruct {
+				continue
+			}
+			byExported, byOther := false, false
+			for _, g := range p.Funcs {
+				for _, b := range g.Blocks {
+					for _, ins := range b.Instrs {
+						if snd, ok := ins.(*ssa.Send); ok {
+							if fv, _ := loadedField(snd.Chan); fv == f && g.Object() != nil && g.Object().Exported() {
+								byExported = true
+							}
+							continue
+						}
+						ci, ok := ins.(ssa.CallInstruction)
+						if !ok {
+							continue
+						}
+						bi, ok := ci.Common().Value.(*ssa.Builtin)
+						if !ok || bi.Name() != "close" || len(ci.Common().Args) != 1 {
+							continue
+						}
+						if fv, _ := loadedField(ci.Common().Args[0]); fv != f {
+							continue
+						}
+						if g.Object() != nil && g.Object().Exported() {
+							byExported = true
+						} else {
+							byOther = true
+						}
+					}
+				}
+			}
+			if (field == "closeC" && byExported && !byOther) || (field == "closed" && byOther && !byExported) {
+				cands = append(cands, f)
+			}
+		}
+	}
+	if len(cands) == 1 {
+		if p.roleNames == nil {
+			p.roleNames = map[*types.Var]string{}
+		}
+		p.roleNames[cands[0]] = field
+		return cands[0]
+	}
 	return nil
 }
 
@@ -284,10 +355,21 @@ func (p *Prog) fieldName(v *types.Var) string {
 	if !v.IsField() {
 		return v.Name()
 	}
-	if o := p.fieldOwner(v); o != "" {
-		return o + "." + v.Name()
+	if !p.rolesResolved {
+		// anchors renamed by a refactoring keep the name they are known by in labels
+		p.rolesResolved = true
+		for _, n := range []string{"flushC", "closeC", "closed"} {
+			p.Field("", "DB", n)
+		}
 	}
-	return v.Name()
+	name := v.Name()
+	if rn, ok := p.roleNames[v]; ok {
+		name = rn
+	}
+	if o := p.fieldOwner(v); o != "" {
+		return o + "." + name
+	}
+	return name
 }
 
 func (p *Prog) fieldOwner(v *types.Var) string {
